@@ -575,6 +575,13 @@ def stores_through_param(fn, param):
 
 
 # ------------------------------------------------------------------------ provenance
+def _callee_name(fn, call):
+    if call.get("fn"):
+        return call["fn"]
+    k = lvalue_key(call.get("f"), fn) if call.get("f") is not None else None
+    return "*" + k if k else "*"
+
+
 def provenance(fn, bid, idx, e, depth=0):
     """Where does the value of `e`, read at element idx of block bid, come from?  A string:
        param:NAME | NAME(args)@k (written through out-argument k of call NAME) |
@@ -588,7 +595,7 @@ def provenance(fn, bid, idx, e, depth=0):
     if k == "null":
         return "NULL"
     if k == "call":
-        return "%s(%s)" % (e.get("fn") or "*", ",".join(provenance(fn, bid, idx, a, depth + 1) for a in e["a"]))
+        return "%s(%s)" % (_callee_name(fn, e), ",".join(provenance(fn, bid, idx, a, depth + 1) for a in e["a"]))
     if k == "mem":
         return provenance(fn, bid, idx, e["b"], depth + 1) + ("->" if e["arrow"] else ".") + e["f"]
     if k == "un" and e["op"] in ("*", "&"):
@@ -621,7 +628,7 @@ def provenance(fn, bid, idx, e, depth=0):
                 args = []
                 for j, a in enumerate(call["a"]):
                     args.append("_" if j == ai else provenance(fn, d[0], d[1], a, depth + 1))
-                alts.add("%s(%s)@%d" % (call.get("fn") or "*", ",".join(args), ai))
+                alts.add("%s(%s)@%d" % (_callee_name(fn, call), ",".join(args), ai))
             else:
                 alts.add("?")
         return " | ".join(sorted(alts))
